@@ -94,6 +94,37 @@ Record ainv (f : forest) (st : fstate) (d : dt) : Prop := {
   ai_env : env_agrees pe (env_of rootns st) f root;
   ai_names : names_ok pe f root }.
 
+(* what one action does to the live nodes (id, own fields): every live node of d' is a live node of d, or the node the
+   action targets / creates, as the handler leaves it *)
+Definition nstep (a : iact) (d d' : dt) : Prop :=
+  forall n' x', In (n', x') (lnodes d') ->
+    In (n', x') (lnodes d) \/
+    match a with
+    | IInsert _ tag _ nid => n' = nid /\ x' = XNode tag [(INSERT_NAME, [])] None [] []
+    | IMove n _ _ => n' = n /\ exists x, In (n, x) (lnodes d) /\ x' = with_attrs x (aput (xattrs x) INSERT_NAME [])
+    | IRename n tag => n' = n /\ exists x, In (n, x) (lnodes d) /\ x' = h_RenameNode x tag
+    | IText n _ => n' = n /\ exists x, In (n, x) (lnodes d) /\ xtag x' = xtag x /\ xattrs x' = xattrs x /\ xtail x' = xtail x
+    | ITail n _ => n' = n /\ exists x, In (n, x) (lnodes d) /\ xtag x' = xtag x /\ xattrs x' = xattrs x /\ xtext x' = xtext x
+    | IUpdAttr n k v => n' = n /\ exists x, In (n, x) (lnodes d) /\ h_UpdateAttrib x k v = FOk x'
+    | IInsAttr n k v => n' = n /\ exists x, In (n, x) (lnodes d) /\ h_InsertAttrib x k v = FOk x'
+    | IDelAttr n k => n' = n /\ exists x, In (n, x) (lnodes d) /\ h_DeleteAttrib x k = FOk x'
+    | IRenAttr n k k' => n' = n /\ exists x, In (n, x) (lnodes d) /\ h_RenameAttrib x k k' = FOk x'
+    | _ => False
+    end.
+
+(* one node relabelled in place *)
+Lemma nodes_relabel d q n node kids node' :
+  dlpath d q -> dget_at d q = Some (DN n node kids) ->
+  In (n, node) (lnodes d) /\
+  forall n' x', In (n', x') (lnodes (dmap_at q (fun _ => DN n node' kids) d)) ->
+                In (n', x') (lnodes d) \/ (n' = n /\ x' = node').
+Proof.
+  intros HL HG. pose proof (lnodes_sub q d _ HL HG) as Hsub. split; [apply Hsub; rewrite lnodes_unfold; now left|].
+  intros n' x' H. apply lnodes_dmap_at in H as [H|(k & Ek & H)]; [now left|].
+  rewrite HG in Ek. inversion Ek; subst k. rewrite lnodes_unfold in H. destruct H as [H|H]; [inversion H; now right|].
+  left. apply Hsub. rewrite lnodes_unfold. now right.
+Qed.
+
 Lemma resolve_node f st d n : ainv f st d -> alive f root n = true ->
   exists q kn, resolve rootns st (path_to_str (getpath pe f root n)) = FOk q /\
                dlpath d q /\ dget_at d q = Some kn /\ did kn = n.
@@ -207,7 +238,8 @@ Lemma attrs_action f st d n a' L' st' p (h : xtree -> fres xtree) :
   ltag L' = ltag (flab f n) -> ltext L' = ltext (flab f n) -> ltail L' = ltail (flab f n) ->
   resolve rootns st (path_to_str (getpath pe f root n)) = FOk p ->
   upd_node st p h = FOk st' ->
-  exists d', erase d' = fs_tree st' /\ rel ws (set_lab f n L') d' /\ did d' = root /\ alive_d d' = true.
+  exists d', erase d' = fs_tree st' /\ rel ws (set_lab f n L') d' /\ did d' = root /\ alive_d d' = true /\
+    forall n' x', In (n', x') (lnodes d') -> In (n', x') (lnodes d) \/ (n' = n /\ exists x, In (n, x) (lnodes d) /\ h x = FOk x').
 Proof.
   intros HI Hal Hh Htag Htext Htail Er H.
   destruct (resolve_node f st d n HI Hal) as (q & kn & Er' & HL & HG & Hk). rewrite Er in Er'. inversion Er'; subst p. clear Er'.
@@ -223,9 +255,12 @@ Proof.
   - destruct HLab as (M1 & M2 & M3 & M4). unfold lab_ok. rewrite flab_set_lab, Nat.eqb_refl.
     destruct node as [tg at_ tx tl ks]. cbn [node' with_attrs xtag xattrs xtext xtail] in *.
     rewrite Htag, Htext, Htail. auto.
-  - exists (dmap_at q (fun _ => DN n node' kids) d). split; [|auto].
-    rewrite (erase_dmap_const d q _ _ HG), (ai_erase _ _ _ HI). cbn [fs_tree]. apply map_at_ext. intros x _.
-    rewrite erase_node. destruct node; reflexivity.
+  - exists (dmap_at q (fun _ => DN n node' kids) d). split; [|split; [exact HR'|split; [exact Hid'|split; [exact Hal'|]]]].
+    + rewrite (erase_dmap_const d q _ _ HG), (ai_erase _ _ _ HI). cbn [fs_tree]. apply map_at_ext. intros x _.
+      rewrite erase_node. destruct node; reflexivity.
+    + destruct (nodes_relabel d q n node kids node' HL HG) as [Hin Hn]. intros n' x' Hx.
+      destruct (Hn n' x' Hx) as [H0|[-> ->]]; [now left|right]. split; [reflexivity|]. exists node. split; [exact Hin|].
+      apply (Hh node HLab).
 Qed.
 
 Definition gpath (f : forest) (n : id) : str := path_to_str (getpath pe f root n).
@@ -243,9 +278,9 @@ Proof. intros H. apply andb_true_iff in H as [H H3]. apply andb_true_iff in H as
 Theorem accept_UpdAttr f st d n k v f' st' :
   ainv f st d -> plain_name k -> spec_apply root f (IUpdAttr n k v) = Some f' ->
   handle_d c o rootns st (DUpdAttr (gpath f n) k v) = FOk st' ->
-  exists d', erase d' = fs_tree st' /\ rel ws f' d' /\ did d' = root /\ alive_d d' = true.
+  exists d', erase d' = fs_tree st' /\ rel ws f' d' /\ did d' = root /\ alive_d d' = true /\ nstep (IUpdAttr n k v) d d'.
 Proof.
-  intros HI Hk Hs H. cbn [spec_apply] in Hs.
+  intros HI Hk Hs H. cbn [spec_apply] in Hs. unfold nstep.
   destruct (alive f root n && is_elem f n && ahas (lattrs (labof f n)) k) eqn:C; [|discriminate].
   apply and3 in C as (C1 & C2 & C3). inversion Hs; subst f'. clear Hs.
   cbn [handle_d] in H. unfold handle_UpdateAttrib in H. apply fbind_ok in H as (p & Er & H).
@@ -265,9 +300,9 @@ Qed.
 Theorem accept_InsAttr f st d n k v f' st' :
   ainv f st d -> plain_name k -> spec_apply root f (IInsAttr n k v) = Some f' ->
   handle_d c o rootns st (DInsAttr (gpath f n) k v) = FOk st' ->
-  exists d', erase d' = fs_tree st' /\ rel ws f' d' /\ did d' = root /\ alive_d d' = true.
+  exists d', erase d' = fs_tree st' /\ rel ws f' d' /\ did d' = root /\ alive_d d' = true /\ nstep (IInsAttr n k v) d d'.
 Proof.
-  intros HI Hk Hs H. cbn [spec_apply] in Hs.
+  intros HI Hk Hs H. cbn [spec_apply] in Hs. unfold nstep.
   destruct (alive f root n && is_elem f n && negb (ahas (lattrs (labof f n)) k)) eqn:C; [|discriminate].
   apply and3 in C as (C1 & C2 & C3). inversion Hs; subst f'. clear Hs.
   cbn [handle_d] in H. unfold handle_InsertAttrib in H. apply fbind_ok in H as (p & Er & H).
@@ -284,9 +319,9 @@ Qed.
 Theorem accept_DelAttr f st d n k f' st' :
   ainv f st d -> plain_name k -> spec_apply root f (IDelAttr n k) = Some f' ->
   handle_d c o rootns st (DDelAttr (gpath f n) k) = FOk st' ->
-  exists d', erase d' = fs_tree st' /\ rel ws f' d' /\ did d' = root /\ alive_d d' = true.
+  exists d', erase d' = fs_tree st' /\ rel ws f' d' /\ did d' = root /\ alive_d d' = true /\ nstep (IDelAttr n k) d d'.
 Proof.
-  intros HI Hk Hs H. cbn [spec_apply] in Hs.
+  intros HI Hk Hs H. cbn [spec_apply] in Hs. unfold nstep.
   destruct (alive f root n && is_elem f n && ahas (lattrs (labof f n)) k) eqn:C; [|discriminate].
   apply and3 in C as (C1 & C2 & C3). inversion Hs; subst f'. clear Hs.
   cbn [handle_d] in H. unfold handle_DeleteAttrib in H. apply fbind_ok in H as (p & Er & H).
@@ -304,9 +339,9 @@ Qed.
 Theorem accept_RenAttr f st d n k k' f' st' :
   ainv f st d -> plain_name k -> plain_name k' -> spec_apply root f (IRenAttr n k k') = Some f' ->
   handle_d c o rootns st (DRenAttr (gpath f n) k k') = FOk st' ->
-  exists d', erase d' = fs_tree st' /\ rel ws f' d' /\ did d' = root /\ alive_d d' = true.
+  exists d', erase d' = fs_tree st' /\ rel ws f' d' /\ did d' = root /\ alive_d d' = true /\ nstep (IRenAttr n k k') d d'.
 Proof.
-  intros HI Hk Hk' Hs H. cbn [spec_apply] in Hs.
+  intros HI Hk Hk' Hs H. cbn [spec_apply] in Hs. unfold nstep.
   destruct (aget (lattrs (labof f n)) k) as [v|] eqn:Ev; [|discriminate].
   destruct (alive f root n && is_elem f n && negb (ahas (lattrs (labof f n)) k')) eqn:C; [|discriminate].
   apply and3 in C as (C1 & C2 & C3). inversion Hs; subst f'. clear Hs.
@@ -330,12 +365,15 @@ Lemma node_action f st d n L' st' q node kids node' :
   ainv f st d -> dlpath d q -> dget_at d q = Some (DN n node kids) ->
   fs_tree st' = map_at q (fun _ => with_kids node' (map erase kids)) (fs_tree st) ->
   alive_w node' = alive_w node -> lab_ok ws (set_lab f n L') n node' ->
-  exists d', erase d' = fs_tree st' /\ rel ws (set_lab f n L') d' /\ did d' = root /\ alive_d d' = true.
+  exists d', erase d' = fs_tree st' /\ rel ws (set_lab f n L') d' /\ did d' = root /\ alive_d d' = true /\
+    In (n, node) (lnodes d) /\
+    forall n' x', In (n', x') (lnodes d') -> In (n', x') (lnodes d) \/ (n' = n /\ x' = node').
 Proof.
   intros HI HL HG Et Ha HLab.
   destruct (label_step f st d q n node kids node' L' HI HL HG Ha HLab) as (HR' & Hid' & Hal').
-  exists (dmap_at q (fun _ => DN n node' kids) d). split; [|auto].
-  rewrite (erase_dmap_const d q _ _ HG), (ai_erase _ _ _ HI), Et. reflexivity.
+  exists (dmap_at q (fun _ => DN n node' kids) d). split; [|split; [exact HR'|split; [exact Hid'|split; [exact Hal'|]]]].
+  - rewrite (erase_dmap_const d q _ _ HG), (ai_erase _ _ _ HI), Et. reflexivity.
+  - apply (nodes_relabel d q n node kids node' HL HG).
 Qed.
 
 Lemma node_at_dt f st d q kn : ainv f st d -> dget_at d q = Some kn -> node_at (fs_tree st) q = FOk (erase kn).
@@ -344,7 +382,7 @@ Proof. intros HI HG. unfold node_at. rewrite <- (ai_erase _ _ _ HI), get_at_eras
 Theorem accept_Rename f st d n tag f' st' :
   ainv f st d -> spec_apply root f (IRename n tag) = Some f' ->
   handle_d c o rootns st (DRenameNode (gpath f n) tag) = FOk st' ->
-  exists d', erase d' = fs_tree st' /\ rel ws f' d' /\ did d' = root /\ alive_d d' = true.
+  exists d', erase d' = fs_tree st' /\ rel ws f' d' /\ did d' = root /\ alive_d d' = true /\ nstep (IRename n tag) d d'.
 Proof.
   intros HI Hs H. cbn [spec_apply] in Hs.
   destruct (alive f root n && is_elem f n) eqn:C; [|discriminate]. apply andb_true_iff in C as [C1 C2].
@@ -354,7 +392,10 @@ Proof.
   unfold upd_node in H. rewrite (node_at_dt f st d q kn HI HG) in H. cbn [fbind] in H. inversion H; subst st'. clear H.
   destruct kn as [n0 node kids]. cbn [did] in Hk. subst n0.
   pose proof (lab_of_rel f n node kids (rel_get ws f q d _ (ai_rel _ _ _ HI) HL HG)) as (M1 & M2 & M3 & M4).
-  apply (node_action f st d n _ _ q node kids (h_RenameNode node tag) HI HL HG).
+  match goal with |- exists d', erase d' = fs_tree ?S /\ _ =>
+    pose proof (node_action f st d n (Lab (TElem tag) (lattrs (labof f n)) (ltext (labof f n)) (ltail (labof f n))) S q node kids (h_RenameNode node tag) HI HL HG) as NA end.
+  destruct NA as (d' & A1 & A2 & A3 & A4 & Hin & Hn);
+    [| | |exists d'; repeat (split; [assumption|]); intros n' x' Hx; destruct (Hn n' x' Hx) as [H0|[-> ->]]; [now left|right; split; [reflexivity|exists node; auto]]].
   - cbn [fs_tree]. apply map_at_ext. intros x _. rewrite erase_node. destruct node; reflexivity.
   - unfold h_RenameNode. destruct node as [tg at_ tx tl ks]. unfold alive_w, is_deleted, ahas. cbn [with_tag with_attrs xattrs xtag].
     rewrite aget_aput_other; [reflexivity|]. intros E; apply dname_inj in E; discriminate.
@@ -371,7 +412,7 @@ Theorem accept_Text f st d n t f' st' :
   room_ok c st (DTextIn (gpath f n) t) ->
   spec_apply root f (IText n t) = Some f' ->
   handle_d c o rootns st (DTextIn (gpath f n) t) = FOk st' ->
-  exists d', erase d' = fs_tree st' /\ rel ws f' d' /\ did d' = root /\ alive_d d' = true.
+  exists d', erase d' = fs_tree st' /\ rel ws f' d' /\ did d' = root /\ alive_d d' = true /\ nstep (IText n t) d d'.
 Proof.
   intros HI Hph [Htxt Hold] Hroom Hs H. cbn [spec_apply room_ok] in Hs, Hroom.
   destruct (alive f root n) eqn:C1; [|discriminate]. inversion Hs; subst f'. clear Hs.
@@ -388,8 +429,12 @@ Proof.
   assert (Hfin : forall newtext, txt_ok ws t (astr (otxt newtext)) ->
             fs_tree st' = map_at q (fun _ => with_kids (with_text node newtext) (map erase kids)) (fs_tree st) ->
             exists d', erase d' = fs_tree st' /\ rel ws (set_lab f n (Lab (ltag (labof f n)) (lattrs (labof f n)) t (ltail (labof f n)))) d'
-                       /\ did d' = root /\ alive_d d' = true).
-  { intros newtext Hok Et. apply (node_action f st d n _ st' q node kids (with_text node newtext) HI HL HG Et).
+                       /\ did d' = root /\ alive_d d' = true /\ nstep (IText n t) d d').
+  { intros newtext Hok Et.
+    destruct (node_action f st d n (Lab (ltag (labof f n)) (lattrs (labof f n)) t (ltail (labof f n))) st' q node kids (with_text node newtext) HI HL HG Et)
+      as (d' & A1 & A2 & A3 & A4 & Hin & Hn);
+      [| |exists d'; repeat (split; [assumption|]); intros n' x' Hx; destruct (Hn n' x' Hx) as [H0|[-> ->]];
+           [now left|right; split; [reflexivity|exists node; split; [exact Hin|destruct node; auto]]]].
     - destruct node; reflexivity.
     - unfold lab_ok. rewrite flab_set_lab, Nat.eqb_refl. unfold labof. cbn [ltag lattrs ltext ltail].
       destruct node as [tg at_ tx tl ks]. cbn [with_text xtag xattrs xtext xtail] in *. auto. }
@@ -412,7 +457,7 @@ Theorem accept_Tail f st d n t f' st' :
   room_ok c st (DTextAfter (gpath f n) t) ->
   spec_apply root f (ITail n t) = Some f' ->
   handle_d c o rootns st (DTextAfter (gpath f n) t) = FOk st' ->
-  exists d', erase d' = fs_tree st' /\ rel ws f' d' /\ did d' = root /\ alive_d d' = true.
+  exists d', erase d' = fs_tree st' /\ rel ws f' d' /\ did d' = root /\ alive_d d' = true /\ nstep (ITail n t) d d'.
 Proof.
   intros HI Hph [Htxt Hold] Hroom Hs H. cbn [spec_apply room_ok] in Hs, Hroom.
   destruct (alive f root n && negb (Nat.eqb n root)) eqn:C; [|discriminate]. apply andb_true_iff in C as [C1 C2].
@@ -431,7 +476,11 @@ Proof.
   destruct (make_diff_tags_gen c o (fs_ph st) _ _ true Hph Hpl Htxt Hroom)
     as (s' & dd & Em & Hs' & _ & _ & Fd & T1 & T2 & _).
   rewrite Em in H. cbn [fbind] in H. inversion H; subst st'. clear H.
-  apply (node_action f st d n _ _ q node kids (with_tail node (encp dd)) HI HL HG).
+  match goal with |- exists d', erase d' = fs_tree ?S /\ _ =>
+    pose proof (node_action f st d n (Lab (ltag (labof f n)) (lattrs (labof f n)) (ltext (labof f n)) t) S q node kids (with_tail node (encp dd)) HI HL HG) as NA end.
+  destruct NA as (d' & A1 & A2 & A3 & A4 & Hin & Hn);
+    [| | |exists d'; repeat (split; [assumption|]); intros n' x' Hx; destruct (Hn n' x' Hx) as [H0|[-> ->]];
+          [now left|right; split; [reflexivity|exists node; split; [exact Hin|destruct node; auto]]]].
   - cbn [fs_tree]. apply map_at_ext. intros x Hx. rewrite Gq in Hx. inversion Hx; subst x. cbn [erase]. destruct node; reflexivity.
   - destruct node; reflexivity.
   - unfold lab_ok. rewrite flab_set_lab, Nat.eqb_refl. unfold labof. cbn [ltag lattrs ltext ltail].
@@ -495,7 +544,7 @@ Proof. intros H. apply andb_true_iff in H as [H H4]. apply and3 in H. tauto. Qed
 Theorem accept_Insert f st d t tag pos newid f' st' :
   ainv f st d -> spec_apply root f (IInsert t tag pos newid) = Some f' ->
   handle_d c o rootns st (DInsertNode (gpath f t) tag pos) = FOk st' ->
-  exists d', erase d' = fs_tree st' /\ rel ws f' d' /\ did d' = root /\ alive_d d' = true.
+  exists d', erase d' = fs_tree st' /\ rel ws f' d' /\ did d' = root /\ alive_d d' = true /\ nstep (IInsert t tag pos newid) d d'.
 Proof.
   intros HI Hs H. cbn [spec_apply] in Hs.
   destruct (alive f root t && is_elem f t && Nat.leb pos (length (kidsof f t)) && Nat.eqb newid (fnext f)) eqn:C; [|discriminate].
@@ -543,10 +592,16 @@ Proof.
     assert (Hxt : x <> t) by (intros ->; apply Hnx; rewrite lids_unfold; now left).
     unfold f'. rewrite flab_ins, (fkids_ins_other f _ t pos x Hxt (Hfresh x Hx)).
     destruct (Nat.eqb x (fnext f)) eqn:E; [apply Nat.eqb_eq in E; exfalso; exact (Hfresh x Hx E)|auto].
-  - exists (dmap_at q (fun _ => DN t tnode (insert_kid r newd tkids)) d). split; [|auto].
-    rewrite (erase_dmap_const d q _ _ HG), (ai_erase _ _ _ HI). cbn [fs_tree]. apply map_at_ext. intros x _.
-    rewrite !erase_node. unfold h_InsertNode. rewrite map_insert_kid.
-    destruct tnode as [tg at_ tx tl ks]. cbn [with_kids xtag xattrs xtext xtail xkids]. reflexivity.
+  - exists (dmap_at q (fun _ => DN t tnode (insert_kid r newd tkids)) d). split; [|split; [exact HR'|split; [exact Hid'|split; [exact Hal'|]]]].
+    + rewrite (erase_dmap_const d q _ _ HG), (ai_erase _ _ _ HI). cbn [fs_tree]. apply map_at_ext. intros x _.
+      rewrite !erase_node. unfold h_InsertNode. rewrite map_insert_kid.
+      destruct tnode as [tg at_ tx tl ks]. cbn [with_kids xtag xattrs xtext xtail xkids]. reflexivity.
+    + intros n' x' Hx. pose proof (lnodes_sub q d _ HL HG) as Hsub.
+      apply lnodes_dmap_at in Hx as [Hx|(k & Ek & Hx)]; [now left|].
+      rewrite HG in Ek. inversion Ek; subst k. rewrite lnodes_unfold in Hx. destruct Hx as [Hx|Hx].
+      * left. apply Hsub. rewrite lnodes_unfold. left. exact Hx.
+      * apply klnodes_insert_kid in Hx as [Hx|[_ Hx]]; [left; apply Hsub; rewrite lnodes_unfold; now right|].
+        right. unfold newd in Hx. rewrite lnodes_unfold in Hx. destruct Hx as [Hx|[]]. inversion Hx; subst. split; reflexivity.
 Qed.
 
 (* ---- the parent of a live position ---- *)
@@ -638,7 +693,7 @@ Qed.
 Theorem accept_Delete f st d n f' st' :
   ainv f st d -> spec_apply root f (IDelete n) = Some f' ->
   handle_d c o rootns st (DDeleteNode (gpath f n)) = FOk st' ->
-  exists d', erase d' = fs_tree st' /\ rel ws f' d' /\ did d' = root /\ alive_d d' = true.
+  exists d', erase d' = fs_tree st' /\ rel ws f' d' /\ did d' = root /\ alive_d d' = true /\ nstep (IDelete n) d d'.
 Proof.
   intros HI Hs H. cbn [spec_apply] in Hs.
   destruct (alive f root n && negb (Nat.eqb n root) && match kidsof f n with [] => true | _ => false end) eqn:C; [|discriminate].
@@ -652,9 +707,11 @@ Proof.
   { intros ->. cbn in HG. inversion HG as [E]. rewrite E in *. pose proof (ai_root _ _ _ HI) as Hr. cbn [did] in Hr. congruence. }
   destruct (mark_dead f st d q n node nkids (delete_node node) HI Hq HL HG) as (HR' & Hid' & Hal').
   - unfold alive_w, is_deleted, ahas, delete_node. destruct node. cbn [with_attrs xattrs]. now rewrite aget_aput, streqb_refl.
-  - exists (dmap_at q (fun _ => DN n (delete_node node) nkids) d). split; [|auto].
-    rewrite (erase_dmap_const d q _ _ HG), (ai_erase _ _ _ HI). cbn [fs_tree]. apply map_at_ext. intros x _.
-    rewrite !erase_node. destruct node; reflexivity.
+  - exists (dmap_at q (fun _ => DN n (delete_node node) nkids) d). split; [|split; [exact HR'|split; [exact Hid'|split; [exact Hal'|]]]].
+    + rewrite (erase_dmap_const d q _ _ HG), (ai_erase _ _ _ HI). cbn [fs_tree]. apply map_at_ext. intros x _.
+      rewrite !erase_node. destruct node; reflexivity.
+    + intros n' x' Hx. left. revert Hx. apply (lnodes_dmap_dead q d _ _ Hq HG).
+      unfold alive_d. cbn [dlab]. unfold alive_w, is_deleted, ahas, delete_node. destruct node. cbn [with_attrs xattrs]. now rewrite aget_aput, streqb_refl.
 Qed.
 
 (* ---- positions that do not pass through a rewritten node ---- *)
@@ -713,7 +770,7 @@ Proof. intros H. apply andb_true_iff in H as [H H6]. apply andb_true_iff in H as
 Theorem accept_Move f st d n t pos f' st' :
   ainv f st d -> spec_apply root f (IMove n t pos) = Some f' ->
   handle_d c o rootns st (DMoveNode (gpath f n) (gpath f t) pos) = FOk st' ->
-  exists d', erase d' = fs_tree st' /\ rel ws f' d' /\ did d' = root /\ alive_d d' = true.
+  exists d', erase d' = fs_tree st' /\ rel ws f' d' /\ did d' = root /\ alive_d d' = true /\ nstep (IMove n t pos) d d'.
 Proof.
   intros HI Hs H. cbn [spec_apply] in Hs.
   destruct (alive f root n && negb (Nat.eqb n root) && alive f root t && is_elem f t
@@ -815,12 +872,23 @@ Proof.
     intros x Hx. split; [apply Fl1|]. apply Fk. intros ->.
     rewrite lids_unfold in NDt1. inversion NDt1 as [|? ? Hnin _]; subst. apply Hnin. eapply klids_In; eauto.
   - intros x Hx Hnx. split; [apply Fl1|]. apply Fk. intros ->. apply Hnx. rewrite lids_unfold. now left.
-  - exists (dmap_at qt (fun _ => DN t tnode (insert_kid r copyd tkids1)) d1). split; [|auto].
-    rewrite (erase_dmap_const d1 qt _ _ HGt1). apply map_at_ext. intros x Hx.
-    rewrite get_at_erase, HGt1 in Hx. inversion Hx; subst x.
-    rewrite !erase_node. rewrite map_insert_kid.
-    destruct tnode as [tg at_ tx tl ks]. destruct node as [ng nat_ nx nl nks].
-    cbn [with_kids with_attrs xtag xattrs xtext xtail xkids copyd erase]. reflexivity.
+  - exists (dmap_at qt (fun _ => DN t tnode (insert_kid r copyd tkids1)) d1). split; [|split; [exact HR'|split; [exact Hid'|split; [exact Hal'|]]]].
+    + rewrite (erase_dmap_const d1 qt _ _ HGt1). apply map_at_ext. intros x Hx.
+      rewrite get_at_erase, HGt1 in Hx. inversion Hx; subst x.
+      rewrite !erase_node. rewrite map_insert_kid.
+      destruct tnode as [tg at_ tx tl ks]. destruct node as [ng nat_ nx nl nks].
+      cbn [with_kids with_attrs xtag xattrs xtext xtail xkids copyd erase]. reflexivity.
+    + assert (Hd1 : incl (lnodes d1) (lnodes d)).
+      { unfold d1. apply (lnodes_dmap_dead qn d _ _ Hqn HGn). exact Hdead. }
+      pose proof (lnodes_sub qn d _ HLn HGn) as Hsubn. pose proof (lnodes_sub qt d1 _ HLt1 HGt1) as Hsubt.
+      intros n' x' Hx. apply lnodes_dmap_at in Hx as [Hx|(k & Ek & Hx)]; [left; apply Hd1, Hx|].
+      rewrite HGt1 in Ek. inversion Ek; subst k. rewrite lnodes_unfold in Hx. destruct Hx as [Hx|Hx].
+      * left. apply Hd1, Hsubt. rewrite lnodes_unfold. left. exact Hx.
+      * apply klnodes_insert_kid in Hx as [Hx|[_ Hx]]; [left; apply Hd1, Hsubt; rewrite lnodes_unfold; now right|].
+        unfold copyd in Hx. rewrite lnodes_unfold in Hx. destruct Hx as [Hx|Hx].
+        -- right. inversion Hx; subst. split; [reflexivity|]. exists node. split; [|reflexivity].
+           apply Hsubn. rewrite lnodes_unfold. now left.
+        -- left. apply Hsubn. rewrite lnodes_unfold. now right.
 Qed.
 
 (* the move handler returns (used for C08) *)
